@@ -329,6 +329,10 @@ func (u *Unit) heapWF(key, name, sort, alloc string) {
 	}
 	if elem == "Int" && u.isRefType(ft) {
 		u.reg.axiom(fmt.Sprintf("(forall ((r Int)) (! (and (<= 0 (select %s r)) (<= (select %s r) %s)) :pattern ((select %s r))))", name, name, alloc, name))
+		if mt, ok := types.Unalias(ft).Underlying().(*types.Map); ok {
+			u.reg.declare("mapty", []string{"Int"}, "Int")
+			u.reg.axiom(fmt.Sprintf("(forall ((r Int)) (! (=> (not (= (select %s r) 0)) (= (mapty (select %s r)) %d)) :pattern ((select %s r))))", name, name, u.reg.mapTypeID(mt), name))
+		}
 		return
 	}
 	// struct-valued field: first-level reference members
@@ -338,6 +342,10 @@ func (u *Unit) heapWF(key, name, sort, alloc string) {
 			acc := fmt.Sprintf("(%s_%s (select %s r))", elem, sanitize(f.name), name)
 			if f.sort == "Int" && u.isRefType(f.typ) {
 				conj = append(conj, "(<= 0 "+acc+")", "(<= "+acc+" "+alloc+")")
+				if mt, ok := types.Unalias(f.typ).Underlying().(*types.Map); ok {
+					u.reg.declare("mapty", []string{"Int"}, "Int")
+					conj = append(conj, fmt.Sprintf("(=> (not (= %s 0)) (= (mapty %s) %d))", acc, acc, u.reg.mapTypeID(mt)))
+				}
 			}
 			if u.reg.isSlice(f.sort) {
 				conj = append(conj, "(>= (len_"+f.sort+" "+acc+") 0)")
@@ -491,7 +499,22 @@ func (u *Unit) allocFact(st *State, v Val) {
 	if v.S == "Int" && u.isRefType(v.GT) && !isSimpleLiteral(v.T) && !u.inSpec {
 		st.assume("(<= " + v.T + " " + st.alloc + ")")
 		st.assume("(>= " + v.T + " 0)")
+		u.mapTypeFact(st, v.T, v.GT)
 	}
+}
+
+// mapTypeFact: maps with the same key sort share one heap array; a map object has exactly one Go
+// type, so references of different map types never alias.
+func (u *Unit) mapTypeFact(st *State, ref string, t types.Type) {
+	if t == nil {
+		return
+	}
+	mt, ok := types.Unalias(t).Underlying().(*types.Map)
+	if !ok {
+		return
+	}
+	u.reg.declare("mapty", []string{"Int"}, "Int")
+	st.assume(implies(not(eq(ref, "0")), eq("(mapty "+ref+")", fmt.Sprint(u.reg.mapTypeID(mt)))))
 }
 
 func isSimpleLiteral(t string) bool {
